@@ -215,6 +215,7 @@ def run_detector(det_name, n, p, msl, M, cs, ps, pen, ignore, nparam=1):
             pens = (float(ca), tuple(float(b) for b in cb), float(pa), tuple(float(b) for b in pb))
         det.fit(X)
     y = det.predict(X)
+    core.emit(det_name, y, n=n, p=p, msl=msl, M=M)
     anomalies = [(int(iv.left), int(iv.right)) for iv in y["ilocs"]]
     if len(y) and y["ilocs"].array.closed != "left":
         raise AssertionError("intervals not left-closed")
